@@ -5,6 +5,7 @@ import BoboVerif.Props.C15
 import BoboVerif.Lemmas.TcpAccount
 import BoboVerif.Lemmas.TcpRun
 import BoboVerif.Lemmas.TcpLattice
+import BoboVerif.Lemmas.ClusterFaults
 /-!
 C06 — Link failures lose nothing: backlog or full resync restores consistency.
 
@@ -829,3 +830,38 @@ example :
 end Pair
 
 end Bobo.Tcp
+
+/-! ---------------------------------------------------------------------------------------------
+## C06 on clusters of decider states: link faults, snapshots and RESYNCs (Lemmas/ClusterFaults.lean)
+--------------------------------------------------------------------------------------------- -/
+namespace Bobo.ClusterD
+open Bobo.Run Bobo.Decider Bobo.Lattice
+variable {ε : Type}
+
+/-- **link failures lose nothing, on clusters of decider states.**  For every sequence of inputs at any
+instances, deliveries of any pending message in any order (with or without removal), extra snapshots, and RESYNCs
+that drop everything in flight on a link and replace it by the sender's `snapshot()` — or fail, leaving the link
+"resync pending" — : once nothing is in flight and no RESYNC is pending, all instances hold the same status for
+every run key of a known pattern (same active runs at the same positions, same finished runs).  The snapshot
+message means exactly what its sender knows (`msgSt_snapshot`, from the well-formedness of the run table), so the
+cluster refines the network model step by step (`fsim_step`) and the network invariant does the rest. -/
+theorem cluster_heal_converges {n : Nat} (c : Cfg ε) (hc : c.caching = true) (hns : NoSing c)
+    (steps : List (FStep n ε)) (fs : FState n ε)
+    (hrun : frun c (finit n ε) steps = some fs)
+    (hquiet : ∀ i j, i ≠ j → fs.cs.flight i j = [] ∧ fs.pend i j = false)
+    (ph pa id : String) (hk : (c.getPattern ph pa).isSome = true) (i j : Fin n) :
+    abs (fs.cs.node i) ph pa id = abs (fs.cs.node j) ph pa id := by
+  obtain ⟨ns, hR, hI⟩ := fsim_run c hc hns ph pa id hk steps (finit n ε) fs (Bobo.Net.init n)
+    (fsim_init ph pa id) Bobo.Net.inv_init hrun
+  have hq : Bobo.Net.Quiescent ns := by
+    intro a b hab
+    refine ⟨?_, ?_⟩
+    · rw [hR.flight a b, (hquiet a b hab).1]; rfl
+    · rw [hR.pending a b]; exact (hquiet a b hab).2
+  rw [← hR.know i, ← hR.know j, Bobo.Net.quiescent_know_eq ns hI hq i, Bobo.Net.quiescent_know_eq ns hI hq j]
+
+/-- the snapshot of an instance says about every key exactly what the instance knows (re-export). -/
+theorem snapshot_means_knowledge (c : Cfg ε) (hc : c.caching = true) (s : DState ε) (h : TableWF s.table)
+    (ph pa id : String) : msgSt ph pa id (snapMsg c s) = abs s ph pa id := msgSt_snapshot c hc s h ph pa id
+
+end Bobo.ClusterD
